@@ -196,17 +196,17 @@ def _algebra(pid, tier, seed, modes, model_note, also=()):
     return res
 
 def C06(tier, seed):
-    res = _algebra("C06", tier, seed, [("addbase", 30000, 500000)], "all (reference, base, option) of the component universe: target reads back as held, agrees with the literal RFC 5.2.2/5.2.3/5.2.4 text algorithm except the '//' guard and rootless dot-removal inputs, return code")
+    res = _algebra("C06", tier, seed, [("addbase", 90000, 500000)], "all (reference, base, option) of the component universe: target reads back as held, agrees with the literal RFC 5.2.2/5.2.3/5.2.4 text algorithm except the '//' guard and rootless dot-removal inputs, return code")
     res.coverage["rule"] = ("(reference, base, option) triples: the component-wise universe of spec/MC_Algebra (3 schemes x 3 authorities x abs x segment lists over {'', '.', '..', 'a', 'b:c', '%2e'} x query x fragment, against 18 bases incl. rootless, empty-path, empty-authority, user/port, IP hosts) "
         "plus random paths of up to 10 segments; three entry points, both widths; TLC compares the projected real target with ResolveT of the projected real inputs. non-trivial = reference non-empty and different from the base; distinct by (ref, base, option)")
     return res
 def C08(tier, seed):
-    res = _algebra("C08", tier, seed, [("normalize", 18000, 400000)], "normal form reads back as held, idempotent, mask locality and composition per component")
+    res = _algebra("C08", tier, seed, [("normalize", 45000, 400000)], "normal form reads back as held, idempotent, mask locality and composition per component")
     res.coverage["rule"] = ("URI texts over component alphabets {a, A, %41, %7e, %7E, %3a, %3A, %2e, %2E, '.', '..', ''} with every host kind, x masks (quick: 13 incl. 0, single bits, all, bits beyond 63; thorough: all 64) x borrowed/owned x 3 entry points x both widths; "
         "each run also records the mask-required query before and after; TLC compares with Normalize(value, mask) and MaskOK. non-trivial = non-zero mask; distinct by (text, mask, ownership)")
     return res
 def C09(tier, seed):
-    res = _algebra("C09", tier, seed, [("c09", 16000, 300000), ("normalize", 9000, 100000)], "Normalize(Resolve(Normalize(R),B)) = Normalize(Resolve(R,B)) for all pairs without %2e segments (strict resolution); scheme/authority presence and path kind preserved")
+    res = _algebra("C09", tier, seed, [("c09", 40000, 300000), ("normalize", 12000, 100000)], "Normalize(Resolve(Normalize(R),B)) = Normalize(Resolve(R,B)) for all pairs without %2e segments (strict resolution); scheme/authority presence and path kind preserved")
     res.coverage["rule"] = ("(R, B) pairs of the MC_Algebra universe without percent-encoded dot segments, absolute bases: both pipelines are executed in the real library and TLC requires the two texts to be equal and equal to the specification's; "
         "plus Normalize events for the kind clause. non-trivial = R non-empty; distinct by (R, B)")
     return res
